@@ -81,6 +81,12 @@ def judge(d):
             else:
                 got = [tuple(int(x) for x in item.split(":")) for item in locs.split()]
                 exp = [e for e in spec(s) if not (s.startswith(BOM) and e[0] < 3)]
+                if len(got) > len(exp):
+                    # extra entries: a linear locator started fresh at (or two boundaries before) an offset disagrees with
+                    # the indexed locator there
+                    g = got[len(exp)]
+                    mismatch("%r at offset %d (linear locator entering the line at this offset)" % (s, g[0]), "what the indexed locator says: %d:%d" % (g[3], g[4]), "linear %d:%d" % (g[1], g[2]))
+                    got = got[:len(exp)]
                 if len(got) != len(exp):
                     mismatch(repr(s), "%d boundaries" % len(exp), "%d" % len(got))
                 else:
